@@ -2,6 +2,7 @@
 pub mod tree;
 pub mod specgraph;
 pub mod regexdfa;
+pub mod bignum;
 
 use serde_json::{json, Value};
 use std::collections::{BTreeMap, BTreeSet};
@@ -55,9 +56,13 @@ pub struct Ctx {
 
 impl Ctx {
     pub fn new(prop: &'static str, tier: Tier) -> Ctx {
+        let _ = std::fs::remove_dir_all(format!("{VERIF_DIR}/replays/{prop}"));
+        Self::for_replay(prop, tier)
+    }
+    /// a context that leaves the replay directory alone (finish() is not meant to be called on it)
+    pub fn for_replay(prop: &'static str, tier: Tier) -> Ctx {
         let seed = std::env::var("VERIF_SEED").ok().and_then(|s| s.parse().ok()).unwrap_or(0);
         let mut known = vec![];
-        let _ = std::fs::remove_dir_all(format!("{VERIF_DIR}/replays/{prop}"));
         let path = format!("{VERIF_DIR}/known_findings.json");
         if let Ok(text) = std::fs::read_to_string(&path) {
             match serde_json::from_str::<Value>(&text) {
